@@ -243,15 +243,29 @@ func (h *H) visibleDrops() int {
 type recPub struct {
 	kcache.Publisher
 	last kcache.Subscription
+	lag  int
 }
 
 func (r *recPub) Subscribe() (kcache.Subscription, error) {
+	// (a decorator that takes its time: whatever the caller looked at before
+	// subscribing has aged by a few hand-offs of the pipeline)
+	for i := 0; i < r.lag; i++ {
+		detsim.Yield("monitor-subscribe")
+	}
 	s, err := r.Publisher.Subscribe()
 	if err == nil {
 		r.last = s
 	}
 	return s, err
 }
+
+// recCtrl: the same decorator around a whole Controller.
+type recCtrl struct {
+	kcache.Controller
+	rec *recPub
+}
+
+func (r *recCtrl) Subscribe() (kcache.Subscription, error) { return r.rec.Subscribe() }
 
 func (h *H) hiddenDrops() int { return detsim.TotalDrops() - h.visibleDrops() }
 
@@ -424,9 +438,16 @@ func (h *H) MakeNode(parent *NodeRT, kind string, f FilterSpec, reader string) (
 		n.Deferred = true
 		n.Filter = FilterSpec{Op: "all"}
 	case "monitor":
-		rp := &recPub{Publisher: pub}
+		rp := &recPub{Publisher: pub, lag: (len(h.Nodes) % 4) * 4}
 		n.NoInit, h.NextMonitorNoInit = h.NextMonitorNoInit, false
-		n.Mon, err = kcache.NewMonitor(rp, h.handler(n))
+		if c, ok := pub.(kcache.Controller); ok {
+			// the decorator is a Controller like the thing it wraps (Cache(), Ready(),
+			// ... are all there): what NewMonitor can find out about a controller by
+			// type assertion it can find out about this one
+			n.Mon, err = kcache.NewMonitor(&recCtrl{Controller: c, rec: rp}, h.handler(n))
+		} else {
+			n.Mon, err = kcache.NewMonitor(rp, h.handler(n))
+		}
 		n.MonSub = rp.last // the monitor's private subscription (to attribute buffer overflows to it)
 	default:
 		panic("world: unknown node kind " + kind)
